@@ -93,8 +93,8 @@ VARIANTS = [
     # ---- C07
     V('c07-no-first-guard', 'C07', 'bad', 'R7.3', FR, "        if first is None:\n            return\n", ""),
     V('c07-valid-next-none', 'C07', 'bad', 'R7.3', G, "        return token is not None and token.match(*sql.TypedLiteral.M_CLOSE)", "        return token.match(*sql.TypedLiteral.M_CLOSE)"),
-    V('c07-int-valueerror-only', 'C07', 'bad', 'R7.2', FM, "        indent_width = int(indent_width)\n    except (TypeError, ValueError):", "        indent_width = int(indent_width)\n    except ValueError:"),
-    V('c07-no-wrap-validation', 'C07', 'bad', 'R7.2', FM, "    try:\n        wrap_after = int(wrap_after)\n    except (TypeError, ValueError):\n        raise SQLParseError('wrap_after requires an integer')\n    if wrap_after < 0:\n        raise SQLParseError('wrap_after requires a positive integer')\n", ""),
+    V('c07-int-valueerror-only', 'C07', 'bad', 'R7.2', FM, "        indent_width = int(indent_width)\n    except (TypeError, ValueError, OverflowError):", "        indent_width = int(indent_width)\n    except ValueError:"),
+    V('c07-no-wrap-validation', 'C07', 'bad', 'R7.2', FM, "    try:\n        wrap_after = int(wrap_after)\n    except (TypeError, ValueError, OverflowError):\n        raise SQLParseError('wrap_after requires an integer')\n    if wrap_after < 0:\n        raise SQLParseError('wrap_after requires a positive integer')\n", ""),
     V('c07-raise-valueerror', 'C07', 'bad', 'R7.1', FO, "    def _stripws_parenthesis(self, tlist):\n", "    def _stripws_parenthesis(self, tlist):\n        if len(tlist.tokens) < 2:\n            raise ValueError('unbalanced parenthesis')\n"),
     V('c07-set-literal', 'C07', 'bad', 'R7.2', FM, "if strip_comments not in [True, False]:", "if strip_comments not in {True, False}:"),
     V('c07-get-window-old', 'C07', 'bad', 'R7.3', S, "        _, over_clause = self.token_next_by(i=Over)\n        if over_clause is None:\n            return None\n        return over_clause.tokens[-1]", "        over_clause = self.token_next_by(i=Over)\n        if not over_clause:\n            return None\n        return over_clause[1].tokens[-1]", 'the defect fixed by cc8c9bb'),
@@ -245,7 +245,7 @@ VARIANTS = [
     V('c09-ok-stack-init-order', 'C09', 'ok', '', G, "    opens = []\n    tidx_offset = 0\n    # The opening", "    tidx_offset = 0\n    opens = []\n    # The opening"),
     V('c09-matcher-scans-delimiters', 'C09', 'bad', 'R9.1', G, "        if token in delimiters:\n            continue\n\n        if token.is_group and not isinstance(token, cls):", "        if token.is_group and not isinstance(token, cls):"),
     V('c07-none-into-token-index', 'C07', 'bad', 'R7.3', FR, "                            if comma is None:\n                                continue\n                            token = comma", "                            token = comma"),
-    V('c07-validation-accepts-float-width', 'C07', 'bad', 'R7.2', FM, "    try:\n        indent_width = int(indent_width)\n    except (TypeError, ValueError):\n        raise SQLParseError('indent_width requires an integer')\n    if indent_width < 1:", "    if indent_width < 1:"),
+    V('c07-validation-accepts-float-width', 'C07', 'bad', 'R7.2', FM, "    try:\n        indent_width = int(indent_width)\n    except (TypeError, ValueError, OverflowError):\n        raise SQLParseError('indent_width requires an integer')\n    if indent_width < 1:", "    if indent_width < 1:"),
     V('c06-reindent-without-strip', 'C06', 'bad', 'R6.3', FM, "    if options.get('strip_whitespace') or options.get('reindent'):", "    if options.get('strip_whitespace'):"),
     # ---- round 5 rules
     V('c01-error-run', 'C01', 'bad', 'R1.10', K, "    (r':=', tokens.Assignment),", "    (r'[\\x00-\\x08]+', tokens.Error),\n    (r':=', tokens.Assignment),", 'a run of control characters as one Error token'),
@@ -283,6 +283,20 @@ VARIANTS = [
     V('c03-offset-off-by-one', 'C03', 'bad', 'R3.B', S, "            if idx <= offset < end:", "            if idx < offset <= end:"),
     V('c03-within-self', 'C03', 'bad', 'R3.B', S, "        parent = self.parent\n        while parent:\n            if isinstance(parent, group_cls):", "        parent = self\n        while parent:\n            if isinstance(parent, group_cls):"),
     V('c02-group-tokens-no-refresh', 'C02', 'bad', 'R2.B', S, "            grp.value = str(start)\n", ""),
+    # ---- round 7 rules
+    V('c07-int-no-overflow', 'C07', 'bad', 'R7.2', FM, "        wrap_after = int(wrap_after)\n    except (TypeError, ValueError, OverflowError):", "        wrap_after = int(wrap_after)\n    except (TypeError, ValueError):", 'the defect fixed by 1a55a07'),
+    V('c03-statement-appended-later', 'C03', 'bad', 'R3.8', SP, "        if self.tokens and not all(t.is_whitespace for t in self.tokens):\n            yield sql.Statement(self.tokens)", "        if self.tokens and not all(t.is_whitespace for t in self.tokens):\n            stmt = sql.Statement(self.tokens[:1])\n            stmt.tokens.extend(self.tokens[1:])\n            yield stmt"),
+    V('c03-statement-list-copy', 'C03', 'ok', None, SP, "        if self.tokens and not all(t.is_whitespace for t in self.tokens):\n            yield sql.Statement(self.tokens)", "        if self.tokens and not all(t.is_whitespace for t in self.tokens):\n            yield sql.Statement(list(self.tokens))"),
+    V('c04-grouping-edits-value', 'C04', 'bad', 'R4.9', G, "        if end is None:\n            end = tlist._groupable_tokens[-1]", "        token.value = token.value.upper()\n        if end is None:\n            end = tlist._groupable_tokens[-1]"),
+    V('c12-period-takes-parenthesis', 'C12', 'bad', 'R12.10', G, "        sqlcls = sql.SquareBrackets, sql.Identifier\n        ttypes = T.Name, T.String.Symbol\n        return imt(token, i=sqlcls, t=ttypes)", "        sqlcls = sql.SquareBrackets, sql.Identifier, sql.Parenthesis\n        ttypes = T.Name, T.String.Symbol\n        return imt(token, i=sqlcls, t=ttypes)"),
+    V('c12-period-takes-function', 'C12', 'ok', None, G, "        sqlcls = sql.SquareBrackets, sql.Function\n        ttypes = T.Name, T.String.Symbol, T.Wildcard, T.String.Single", "        sqlcls = sql.SquareBrackets, sql.Function, sql.Case\n        ttypes = T.Name, T.String.Symbol, T.Wildcard, T.String.Single", 'a Case after a period changes no reference inside a subquery'),
+    V('c12-parent-name-last-dot', 'C12', 'ok', None, S, "        dot_idx, _ = self.token_next_by(m=(T.Punctuation, '.'))\n        _, prev_ = self.token_prev(dot_idx)", "        dot_idx, _ = self.token_next_by(m=(T.Punctuation, '.'))\n        while dot_idx is not None and self.token_next_by(m=(T.Punctuation, '.'), idx=dot_idx)[0] is not None:\n            dot_idx = self.token_next_by(m=(T.Punctuation, '.'), idx=dot_idx)[0]\n        _, prev_ = self.token_prev(dot_idx)", 'first and last period coincide for name and qualifier.name, the references of the property'),
+    V('c13-where-includes-close', 'C13', 'bad', 'R13.8', G, "        else:\n            end = tlist.tokens[eidx - 1]\n        # TODO", "        else:\n            end = tlist.tokens[eidx]\n        # TODO"),
+    V('c13-where-eidx-direct', 'C13', 'ok', None, G, "        # TODO: convert this to eidx instead of end token.\n        # i think above values are len(tlist) and eidx-1\n        eidx = tlist.token_index(end)\n", "        eidx = tlist.tokens.index(end)\n"),
+    V('c13-cases-else-dropped', 'C13', 'bad', 'R13.9', S, "            elif token.match(T.Keyword, 'ELSE'):\n                ret.append((None, []))\n                mode = VALUE", "            elif token.match(T.Keyword, 'ELSE'):\n                mode = VALUE"),
+    V('c13-cases-then-kept-in-condition', 'C13', 'bad', 'R13.9', S, "            elif token.match(T.Keyword, 'THEN'):\n                mode = VALUE\n", "            elif token.match(T.Keyword, 'THEN'):\n                ret[-1][0].append(token)\n                mode = VALUE\n                continue\n"),
+    V('c07-case-close-endcase', 'C07', 'bad', 'R7.10', S, "    M_OPEN = T.Keyword, 'CASE'\n    M_CLOSE = T.Keyword, 'END'", "    M_OPEN = T.Keyword, 'CASE'\n    M_CLOSE = T.Keyword, ('END', 'END CASE')"),
+    V('c20-parse-adds-keywords', 'C20', 'bad', 'R20.10', I, "    stack = engine.FilterStack()\n    stack.enable_grouping()\n", "    stack = engine.FilterStack()\n    stack.enable_grouping()\n    if encoding == 'mysql':\n        from sqlparse.lexer import Lexer\n        Lexer.get_default_instance().add_keywords({'STRAIGHT_JOIN': tokens.Keyword})\n"),
 ]
 
 WHOLE_FILE = {
